@@ -319,6 +319,8 @@ class SymInterp:
             return list(v)
         if isinstance(v, SObj):
             c = self.repo.cls(v.cls)
+            if c.lookup("__iter__") is not None:
+                return self.iterate(self.call_fn(c.lookup("__iter__"), [v]), fi, node)
             if c.lookup("__iter__") is None and c.lookup("__getitem__") is not None:
                 # legacy iteration protocol over the stored component list
                 out = []
@@ -405,6 +407,15 @@ class SymInterp:
                     raise AnalysisError("E4: %s: isinstance on %s" % (fi.where(e), txt(e.args[1])))
                 if n == "len":
                     return C(len(self.iterate(args[0], fi, e)))
+                if n == "iter" and len(args) == 1:
+                    return list(self.iterate(args[0], fi, e))
+                if n == "zip":
+                    return [tuple(t) for t in zip(*[self.iterate(a, fi, e) for a in args])]
+                if n.startswith("operator.") and n.split(".", 1)[1] in ("add", "sub", "mul", "truediv") and len(args) == 2:
+                    opn = {"add": ast.Add, "sub": ast.Sub, "mul": ast.Mult, "truediv": ast.Div}[n.split(".", 1)[1]]
+                    return self.binop(opn, args[0], args[1], fi, e)
+                if n == "operator.neg" and len(args) == 1 and isinstance(args[0], dict):
+                    return pmul(args[0], C(-1))
                 if n in ("list", "tuple"):
                     vs = self.iterate(args[0], fi, e)
                     return list(vs) if n == "list" else tuple(vs)
